@@ -106,8 +106,9 @@ def r_edit(prog, tier):
                 if isinstance(v, ast.AST) and unparse(v) == 'trees.terminals(%s)' % tree:
                     lens.append('len(%s)' % nm2)
         # the loop variable over the requested indices
-        loops = [n for n in cfg.eval_nodes() if n.kind == 'iter' and '.terminals[' in unparse(n.ast.iter)
-                 and isinstance(n.ast.target, ast.Name)]
+        loops = [n for n in cfg.eval_nodes() if n.kind == 'iter' and isinstance(n.ast.target, ast.Name) and not n.loops
+                 and isinstance(n.ast.iter, ast.Call) and unparse(n.ast.iter.func) == 'sorted'
+                 and any(k.arg == 'key' and unparse(k.value) == 'int' for k in n.ast.iter.keywords)]
         if len(loops) != 1:
             raise AnalysisError('%s: loop over the requested indices not found' % f.fq)
         X = loops[0].ast.target.id
